@@ -541,6 +541,15 @@ func genCall(t *rapid.T, drawing bool) Call {
 		}
 		return op(ops.OpDraw(k, args...))
 	}
+	if nextBytes {
+		nextBytes = false
+		return Call{What: "bytes"}
+	}
+	if drawing && hiresOK && rapid.IntRange(0, 14).Draw(t, "hiresinpath") == 0 {
+		// the resolution field assigned while the path is open, and Bytes asked right after
+		nextBytes = rapid.Bool().Draw(t, "thenbytes")
+		return Call{What: "hires", Hi: rapid.Bool().Draw(t, "hi")}
+	}
 	if drawing && runLeft > 0 && prevVerb != 0 {
 		runLeft-- // inside a long uninterrupted run of one verb (beyond one opcode's repeat count)
 		return drawCall(prevVerb)
@@ -636,6 +645,9 @@ func genCall(t *rapid.T, drawing bool) Call {
 // prevVerb: the drawing verb genCall drew last in the current case.
 var prevVerb ops.Kind
 
+// nextBytes: genCall's next call is Bytes.
+var nextBytes bool
+
 // pathStart: where genCall started the current path.
 var pathStart [2]float32
 
@@ -650,7 +662,7 @@ func TestRandomHistories(t *testing.T) {
 		n := rapid.IntRange(1, 300).Draw(t, "len")
 		var c Case
 		a := newAutomaton()
-		prevVerb, runLeft, hiresOK = 0, 0, false
+		prevVerb, runLeft, hiresOK, nextBytes = 0, 0, false, false
 		for i := 0; i < n; i++ {
 			call := genCall(t, a.st == stDrawing && a.err == vNone)
 			a.step(i, call)
